@@ -431,9 +431,8 @@ def run_footprint(res, work, tier, seed):
         rid += 1
         sizes = rng.choice([[1, 7, 1000, 65536, 300000], [65536], [300000, 1, 1, 7], [131072, 4096, 100, 1000],
                             [3145728, 1500000, 5], [1048576]])
-        t = total if shape != "dense" else total // 4          # dense = many tiny chunks: slower per byte
-        if kind == "pipeline":
-            t //= 2
+        t = total if shape != "dense" else total // 2          # dense = many tiny chunks: slower per byte
+        t = max(t, 32 * mib)                                   # long enough for the growth monitor (4 x warm-up)
         runs.append({"run": rid, "cfg": {"kind": kind, "shape": shape, "total": t, "sizes": sizes, "m": m,
                                          "drain": drain, "seed": rng.randrange(1 << 30)}, "ops": []})
     # a producer with its own arena feeding small anchored blocks (the slice's anchor alone keeps its chunk alive),
@@ -441,9 +440,9 @@ def run_footprint(res, work, tier, seed):
     for kind in ("enc", "pipeline"):
         for drain in ("slices", "bytes", "read"):
             rid += 1
-            runs.append({"run": rid, "cfg": {"kind": kind, "shape": rng.choice(shapes[:2]), "total": total // (8 if kind == "enc" else 16),
+            runs.append({"run": rid, "cfg": {"kind": kind, "shape": rng.choice(shapes[:2]), "total": max(total // 2, 32 * mib),
                                              "sizes": rng.choice([[48], [48, 64, 65, 300, 5], [4000, 48]]), "m": "foreign",
-                                             "drain": drain, "drain_every": rng.choice([1, 8, 8]), "stride": 7, "seed": rng.randrange(1 << 30)}, "ops": []})
+                                             "drain": drain, "drain_every": rng.choice([1, 8, 8]), "stride": 31, "seed": rng.randrange(1 << 30)}, "ops": []})
     # the live counters are process-wide atomics: concurrent short histories must leave them at their baseline
     rid += 1
     runs.append({"run": rid, "cfg": {"kind": "mt", "shape": "ones", "total": 2000 if tier == "quick" else 30000, "sizes": [1],
